@@ -51,4 +51,19 @@ TEXT["C04"] = dict(engine="verus",
    note="Assumed: push_compressed_domain append-only contract (LinkedList dictionary outside Verus; Kani-bounded), section lengths fit 16-bit counts, Vec::splice exact semantics (R11). "
         "Not decided: that each kept record re-parses as one record (C14), question longer than the limit (never truncated by the encoder), TCP path length prefix.")
 
+TEXT["C06"] = dict(engine="verus+kani",
+   technique="Verus contracts on CacheHandler::{get_entry,insert_cache_entry,calculate_expiry,handle_query}, clone_out_reply, clone_with_ttl_decrement (R17 loop form) with a map invariant; Kani bounded for get_expiry",
+   level="Unbounded deductive proof: the map invariant 'an Ok entry never lives longer than its smallest TTL' is preserved by insertion; get_entry returns a hit only for exactly the "
+         "looked-up key and only while now <= birth+lifetime; every TTL of the served copy is the stored TTL minus the whole seconds since birth and this subtraction cannot wrap "
+         "(precondition of clone_with_ttl_decrement discharged from the invariant); the key is exactly (name,type,DO,CD); zero lifetime is not stored. "
+         "get_expiry == min TTL is checked only bounded (7 section shapes, symbolic TTLs) and assumed by the proof.",
+   note="Assumed: time model (ns view), lock = invariant, vstd HashMap specs + key-model axiom for the derived Hash/Eq of CacheKey, derived Clone structural. expire() (garbage collection) not under contract.")
+TEXT["C15"] = dict(engine="verus",
+   technique="Verus contract on DnsRouteHandler::handle_query with nested loop invariants (ghost index of the best suffix), Domain::ends_with against a case-insensitive whole-label spec",
+   level="Unbounded deductive proof for all route tables and query names: if any (route,suffix) matches, the outcome is that of a route holding a longest matching suffix "
+         "(forge-nxdomain -> Blocked without reaching the resolver; forward without RD -> NotAuthoritative; forward with RD -> resolver called with that route's first server; "
+         "no servers -> NoRouteConfigured); if none matches -> NoRouteConfigured. ends_with == ASCII case-insensitive whole-label suffix (empty suffix matches all). "
+         "Order independence follows because the postcondition is stated over the set of matching pairs.",
+   note="Assumed: <[u8]>::eq_ignore_ascii_case spec, Ordering ==, label tie-break comparison (Vec<Label>::cmp) left unspecified (ties are free per the property). Route parsing from YAML not under contract.")
+
 NA = {}
